@@ -49,6 +49,8 @@ def call(x, api, dtype, nd=None):
 
     k1, gu, gund = kern()
     a = np.array(x, dtype=dtype)
+    global _LAST_WATCH
+    _LAST_WATCH = core.Watch(a)
     if api == "1d":
         t, p, s, tr = k1(a.astype("float64") if dtype == "float64" else a)
     elif api == "gu":
@@ -64,6 +66,9 @@ def call(x, api, dtype, nd=None):
         r = da.hdc.algo.mktrend()
         t, p, s, tr = (np.asarray(r[n]).reshape(-1)[0] for n in ("tau", "pvalue", "slope", "trend"))
     return core.rat(t), core.rat(p), core.rat(s), int(tr)
+
+
+_LAST_WATCH = None
 
 
 def all_patterns(n):
@@ -88,6 +93,7 @@ def execute(c):
         c["nd"] = core.rat(np.float32(c["ndv"]))
     else:
         c["tau"], c["p"], c["slope"], c["trend"] = call(c["xi"], c["api"], c["dtype"], c.get("ndv"))
+        c["inmod"] = bool(_LAST_WATCH and _LAST_WATCH.changed())
         c["x"] = [core.rat(np.dtype(c["dtype"]).type(v)) for v in c["xi"]]
         if op == "pair":
             c["tau2"], c["p2"], c["slope2"], c["trend2"] = call(c["yi"], c["api"], c["dtype"], c.get("ndv"))
